@@ -9,7 +9,7 @@ parametric in and checks, fail-closed, the statement shapes the hand model trans
   * _INTERNAL_RECEIVE_TYPES,
   * order of the state changes inside close() (closed flag before the close frame, wake-up of a blocked
     receive(), every exit path closes the transport), the `finally` of receive() (clears `_waiting`, resolves
-    `_close_wait`), `WebSocketWriter.close` setting `_closing` in a `finally`, and the exception handler order
+    `_close_wait`), `WebSocketWriter.close` setting `_closing` before the close frame, one close timeout around the whole wait loop, and the exception handler order
     of receive().
 """
 import ast
@@ -218,10 +218,18 @@ def generate() -> str:
         "except asyncio.CancelledError", "self._close_code = WSCloseCode.ABNORMAL_CLOSURE", "self._response.close()", "raise",
         "except Exception", "self._close_code = WSCloseCode.ABNORMAL_CLOSURE", "self._response.close()", "return True",
         "if self._close_code:", "self._response.close()", "return True",
-        "while True:", "try:", "async with async_timeout.timeout(self._timeout.ws_close):", "msg = await self._reader.read()",
+        "try:", "async with async_timeout.timeout(self._timeout.ws_close):", "while True:", "msg = await self._reader.read()",
+        "if msg.type is WSMsgType.CLOSE:", "self._close_code = msg.data", "self._response.close()", "return True",
         "except asyncio.CancelledError", "self._close_code = WSCloseCode.ABNORMAL_CLOSURE", "self._response.close()", "raise",
-        "except Exception", "self._close_code = WSCloseCode.ABNORMAL_CLOSURE", "self._response.close()", "return True",
-        "if msg.type is WSMsgType.CLOSE:", "self._close_code = msg.data", "self._response.close()", "return True"])
+        "except Exception", "self._close_code = WSCloseCode.ABNORMAL_CLOSURE", "self._response.close()", "return True"])
+    # one deadline for the whole wait: the timeout context encloses the loop, not the other way round
+    for path, cls in ((WEB, "WebSocketResponse"), (CLI, "ClientWebSocketResponse")):
+        f2 = _find(path, "close", cls)
+        for st in _stmts(f2):
+            if isinstance(st, ast.While):
+                inner = [_head(x) for x in _stmts(ast.Module(body=list(st.body), type_ignores=[]))]
+                if any(h.startswith("async with async_timeout.timeout(") for h in inner):
+                    raise TranslatorError(f"{cls}.close: the close timeout is re-armed inside the read loop")
     if _count(fn, "self._set_closed()") != 1 or _count(fn, "await self._writer.close(code, message)") != 1:
         raise TranslatorError("client close(): _set_closed / writer.close not exactly once")
     _handlers_call(CLI, "ClientWebSocketResponse", "close", {"self._response.close()"})
@@ -273,15 +281,12 @@ def generate() -> str:
         if not ok:
             raise TranslatorError(f"{cls}.receive: `finally: self._waiting = False; if self._close_wait: set_result(...)` not found")
 
-    # WebSocketWriter.close: closing flag in a finally
+    # WebSocketWriter.close: the closing flag is set BEFORE the close frame is sent (send_frame may wait for a drain)
     fn = core.find_function(WR, "close", cls="WebSocketWriter")
-    ok = False
-    for s in _stmts(fn):
-        if isinstance(s, ast.Try) and [_head(x) for x in s.finalbody] == ["self._closing = True"] \
-                and [_head(x) for x in s.body] == ["await self.send_frame(PACK_CLOSE_CODE(code) + message, opcode=WSMsgType.CLOSE)"]:
-            ok = True
-    if not ok:
-        raise TranslatorError("WebSocketWriter.close: try: send_frame(CLOSE) finally: self._closing = True  not found")
+    heads = [_head(x) for x in _stmts(fn)]
+    want = ["self._closing = True", "await self.send_frame(PACK_CLOSE_CODE(code) + message, opcode=WSMsgType.CLOSE)"]
+    if [h for h in heads if h in want] != want or any(isinstance(x, ast.Try) for x in _stmts(fn)):
+        raise TranslatorError("WebSocketWriter.close: expected `self._closing = True` followed by `await self.send_frame(<close>)`, no try")
 
     # ping/pong exception handlers
     _ordered(WEB, "WebSocketResponse", "_handle_ping_pong_exception", [
